@@ -19,6 +19,7 @@ import (
 	"time"
 
 	"verif/harness/internal/pand"
+	"verif/harness/internal/scengen"
 	si "verif/harness/internal/sceninterp"
 	"verif/harness/internal/target"
 	"verif/harness/internal/vf"
@@ -137,11 +138,11 @@ func describe(c Case, res *runResult) string {
 
 type seqStats struct {
 	flowPost, flowPre, noValue, mult, multSleep, sleepItem, minWait bool
-	nextUsed, nextWrapped                                            bool
-	fails                                                            map[string]bool
-	failPos                                                          map[string]bool
-	non2xxContinue                                                   bool
-	gapsChecked, waitsChecked                                        int
+	nextUsed, nextWrapped                                           bool
+	fails                                                           map[string]bool
+	failPos                                                         map[string]bool
+	non2xxContinue                                                  bool
+	gapsChecked, waitsChecked                                       int
 }
 
 // checkSeq: one instance, requests strictly sequential; the interpreter is replayed
@@ -378,6 +379,14 @@ func checkSeq(c Case, o *vf.Obs) error {
 	return nil
 }
 
+func entryScenario(p *si.Program) map[string]string {
+	m := map[string]string{}
+	for _, sc := range p.Scenarios {
+		m[sc.Expand()[0].Name] = sc.Name
+	}
+	return m
+}
+
 // ---- concurrent: [next] hands out consecutive rows across instances ----
 
 func freshOf(key string) (string, int) {
@@ -489,6 +498,18 @@ func checkConcurrent(c Case, o *vf.Obs) error {
 	if string(ws) != string(gs) {
 		return fail("samples %s, expected %s", gs, ws)
 	}
+	// did invocations really overlap? (an invocation began while an earlier one still had steps to send)
+	open, interleaved := 0, false
+	for i := range res.Recs {
+		name := reqName(res.Recs[i].RequestURI)
+		if scn, ok := entryScenario(prog)[name]; ok {
+			interleaved = interleaved || open > 0
+			open += len(prog.Scenario(scn).Expand()) - 1
+		} else if open > 0 {
+			open--
+		}
+	}
+	o.ClassIf(interleaved, "invocations_interleaved_at_target")
 	o.Class(fmt.Sprintf("instances_%d", c.Instances))
 	o.ClassIf(nextUsed, "next_used")
 	o.ClassIf(wrapped, "next_wrapped")
@@ -538,6 +559,45 @@ func TestScenarioExecution(t *testing.T) {
 	pand.Init()
 	r := vf.Start(t, "C15")
 	vf.Check(r, func(t *rapid.T) Case { return steer(r, genCase(t)) }, checkSeq)
+}
+
+// witnessTemplateKey is the minimal form of findingTemplateKey: one request with a
+// constant header named `url` (must arrive as `Url: from-header`, arrives as the URI)
+// and one with a header named `body` (the body must stay the body template's).
+func witnessTemplateKey(which string) Case {
+	one := int64(1)
+	body := si.Tmpl{{Lit: "the-body"}}
+	req := si.Request{Name: "e0", Method: "POST", URI: si.Tmpl{{Lit: "/e0/path"}}, Body: &body, RespKind: "json",
+		Headers: []si.Header{{Name: which, Value: si.Tmpl{{Lit: "from-header"}}}}}
+	return Case{
+		Prog: si.Program{Requests: []si.Request{req},
+			Scenarios: []si.Scenario{{Name: "alpha", Weight: &one, Steps: []scengen.Step{{Name: "e0"}}}}},
+		Cycles: 2, Instances: 1, Salt: "ww",
+	}
+}
+
+// TestKnownWitness re-runs the fixed witnesses of the findings of this check. While a
+// finding is listed as known it is reported as still present (KnownHit); unlisted, a
+// failing witness is a violation like any other failing case.
+func TestKnownWitness(t *testing.T) {
+	pand.Init()
+	r := vf.Start(t, "C15")
+	for _, which := range []string{"url", "body"} {
+		c := witnessTemplateKey(which)
+		o := &vf.Obs{}
+		err := vf.Guard(func() error { return checkSeq(c, o) })
+		if r.IsKnown(findingTemplateKey) {
+			r.Record(c, o, nil)
+			if err != nil {
+				r.KnownHit(findingTemplateKey)
+			}
+			continue
+		}
+		r.Record(c, o, err)
+		if err != nil {
+			t.Errorf("witness (header named %q): %v", which, err)
+		}
+	}
 }
 
 func TestNextAcrossInstances(t *testing.T) {
